@@ -645,7 +645,7 @@ fn process_request_obj(request: &Request, dbs: &Arc<Databases>, client: &mut Cli
         } => {
             log::info!("Processing resolve for {} to {} ", key, value);
             // Replica set or admin auth resolving
-            if client.auth.load(Ordering::SeqCst) {
+            let response = if client.auth.load(Ordering::SeqCst) {
                 apply_to_database_name(
                     dbs,
                     client,
@@ -677,7 +677,7 @@ fn process_request_obj(request: &Request, dbs: &Arc<Databases>, client: &mut Cli
                         }
                     },
                     &PermissionKind::Read,
-                );
+                )
             } else {
                 // A resolve writes the key: like set it needs write access to it (and admin for $$ keys)
                 apply_if_safe_access(
@@ -711,8 +711,12 @@ fn process_request_obj(request: &Request, dbs: &Arc<Databases>, client: &mut Cli
                         }
                     },
                     PermissionKind::Write,
-                );
+                )
             };
+            // A refused resolve must not be acknowledged (and replicated) as if it had been applied
+            if let Response::Error { msg } = response {
+                return Response::Error { msg };
+            }
             return Response::Ok {};
         }
         Request::ListCommands {} => apply_if_auth(&client.auth, &|| {
